@@ -162,7 +162,7 @@ def replay_file(ctx, path):
 class Pool:
     def __init__(self, rnd):
         self.rnd = rnd
-        self.keys = [b'k1', b'k2', b'key:3', b'\xff\x00bin', b'a b', b'k\r\nx', b'K1', b'kk', b'{t}1', b'z' * 40]
+        self.keys = [b'k1', b'k2', b'key:3', b'\xff\x00bin', b'a b', b'k\r\nx', b'K1', b'kk', b'{t}1', b'z' * 40, b'']
         self.vals = [b'', b'a', b'10', b'-1', b'0', I64MAX, I64MIN, b'9223372036854775806', b'hello world',
                      b'\r\n', b'\x00\x01\xfe\xff', b'1.5', b' 1', b'1 ', b'abc' * 30, b'-', b'12345678901234567890123']
         self.ints = [b'0', b'1', b'-1', b'2', b'-2', b'3', b'5', b'-5', b'10', b'-10', b'100', I64MAX, I64MIN,
